@@ -99,6 +99,13 @@ def drv_macro(seed, gen_kw, maxb):
 def drv_model_replay(scn, path, maxb, elog):
     mr = replay_model.ModelReplay(scn, path, maxb)
     tr, div = mr.run()
+    if not div:
+        # the model says whether its end is a full one (recovery rounds not exhausted by the bound)
+        mend = [e for e in elog if e.get("e") == "end"]
+        for e in reversed(tr["ev"]):
+            if e.get("e") == "end":
+                e["full"] = bool(mend[-1].get("full", True)) if mend else True
+                break
     diff = None if div else replay_model.compare(elog, tr, mr.sync_index)
     tr["conformance"] = {"diverged": div, "diff": diff}
     return tr
@@ -155,8 +162,8 @@ def drv_first_round(scn, seed):
     return tr
 
 
-def drv_results(plan, seed, path):
-    return run_api.run_results(plan, seed=seed, path=path)
+def drv_results(plan, seed, path, fine=False):
+    return run_api.run_results(plan, seed=seed, path=path, fine=fine)
 
 
 def drv_cluster(plan, seed, path, elog):
@@ -427,7 +434,7 @@ class Ctx:
         return res
 
     def impl_model(self, name, scns, maxb=3, maxuser=3, fixed=None, simulate=None, max_replay=400, invariants=None,
-                   timeout=1500, faults=(), maxfaults=0, usercancel=False):
+                   timeout=1500, faults=(), maxfaults=0, usercancel=False, eager=False):
         """Explore JadeImpl on the given scenarios (exhaustively, or by simulation), then replay the behaviours TLC
         produced into the real code: events predicted by the model vs. events observed (conformance), and the real
         traces are judged by the monitor like any other."""
@@ -442,7 +449,7 @@ class Ctx:
         cfg = ["SPECIFICATION Spec", "CONSTANTS", "  Scns <- ScnSet", f"  MaxB = {maxb}", f"  MaxUser = {maxuser}",
                "  Monitor = TRUE", "  Log = TRUE", "  Fixed = {%s}" % ", ".join(json.dumps(x) for x in sorted(fixed or FIXED)),
                "  FaultKinds = {%s}" % ", ".join(json.dumps(x) for x in faults), f"  MaxFaults = {maxfaults}",
-               "  UserCancels = " + ("TRUE" if usercancel else "FALSE"),
+               "  UserCancels = " + ("TRUE" if usercancel else "FALSE"), "  EagerUser = " + ("TRUE" if eager else "FALSE"),
                "VIEW View"] + [f"INVARIANT {i}" for i in invs] + ["INVARIANT DumpBehaviour", "CHECK_DEADLOCK FALSE"]
         cfgp = os.path.join(gen, mod + ".cfg")
         with open(cfgp, "w") as f:
@@ -571,7 +578,7 @@ class Ctx:
             cfgp = os.path.join(gen, mod + ".cfg")
             with open(cfgp, "w") as f:
                 f.write("\n".join(["SPECIFICATION FairSpec", "CONSTANTS", "  Scns <- ScnSet", f"  MaxB = {maxb}", f"  MaxUser = {mu}",
-                                   "  Monitor = FALSE", "  Log = FALSE", "  FaultKinds = {}", "  MaxFaults = 0", "  UserCancels = FALSE",
+                                   "  Monitor = FALSE", "  Log = FALSE", "  FaultKinds = {}", "  MaxFaults = 0", "  UserCancels = FALSE", "  EagerUser = FALSE",
                                    "  Fixed = {%s}" % ", ".join(json.dumps(x) for x in sorted(fixed or FIXED)),
                                    "PROPERTY EventuallyComplete", "CHECK_DEADLOCK FALSE"]) + "\n")
             res = tlc.run_tlc(mod, cfg=cfgp, workers=NCPU, cwd=gen, timeout=1500)
@@ -700,7 +707,10 @@ RULE_PROTOCOL = ("(a) JadeImpl explored by TLC on small scenarios, every interle
                  "batch starts, job exits and recovery rounds; its behaviours replayed into the real code (conformance); "
                  "(b) seeded random DAGs (listing order independent of dependency order), random submitter parameters (batch "
                  "size / time-based batching with estimates / max nodes / try-add-blocked / groups), random interleavings, "
-                 "documented recovery rounds; distinct = distinct (scenario, schedule) pairs")
+                 "documented recovery rounds; (c) code -> model: recorded runs followed by JadeImpl; (d) single-delay sweep of base "
+                 "schedules and login-node rounds started at every other step of base schedules and held at each of their "
+                 "operations -- also with every file operation as a scheduling point; distinct = distinct (scenario, "
+                 "schedule) pairs")
 
 
 def delay_sweep_tasks(ctx, bases, cap=None):
@@ -723,6 +733,51 @@ def delay_sweep_tasks(ctx, bases, cap=None):
     return baselines, tasks
 
 
+def user_round_sweep_tasks(ctx, cap=None):
+    """The user runs try-submit-jobs while batches are active (started at every t-th scheduling step of a base schedule)
+    and that round is held at each of its operations while the nodes go on: every placement of a concurrent login-node
+    round against the end of the batches (e.g. the last batch ending between the round's two observations of the world)."""
+    bases = [families.scn("AB", groups=[families.G(size=1, procs=1)], maxnodes=0),
+             families.scn("ABC", blk={"C": ["A"]}, groups=[families.G(size=2, tryadd=False, procs=2)], maxnodes=0),
+             families.scn("ABC", groups=[families.G(size=2, procs=1)], maxnodes=0)]
+    base_tasks = [("fault", (b, ctx.seed * 37 + i, None, False)) for i, b in enumerate(bases)]
+    baselines = run_tasks(base_tasks)
+    tasks = []
+    for (kind_, (scn, seed, _, fm)), btr in zip(base_tasks, baselines):
+        nsteps = len(btr["moves"])
+        for t in range(2, nsteps, 2):
+            for j in range(0, 16):
+                plan = [{"kind": "usertry", "t": t, "host": "user"},
+                        {"kind": "delay", "label": "try-submit-jobs", "b": -1, "j": j, "d": 25}]
+                tasks.append(("fault", (scn, seed, plan, False)))
+    ctx.extra["user_round_points_enumerated"] = len(tasks)
+    if cap and len(tasks) > cap:
+        tasks = random.Random(ctx.seed + 4).sample(tasks, cap)
+    return baselines, tasks
+
+
+def fine_user_round_sweep_tasks(ctx, cap=None):
+    """The same at the grain of single file operations (every open-for-write / rename / remove of a state or result file is a
+    scheduling point): a login-node round started while batches with several jobs are running, held at each of its
+    operations -- e.g. between reading a node's result file and deleting it -- while the nodes go on appending."""
+    bases = [families.scn("ABCD", groups=[families.G(size=2, procs=1)], maxnodes=0),
+             families.scn("ABC", blk={"C": ["A"]}, groups=[families.G(size=3, tryadd=True, procs=2)], maxnodes=0)]
+    prio = {"kind": "prio", "label": "submit-jobs"}
+    base_tasks = [("fault", (b, ctx.seed * 41 + i, [dict(prio)], True)) for i, b in enumerate(bases)]
+    baselines = run_tasks(base_tasks)
+    tasks = []
+    for (kind_, (scn, seed, _, fm)), btr in zip(base_tasks, baselines):
+        for t in range(20, len(btr["moves"]), 6):
+            for j in range(0, 64):
+                plan = [dict(prio), {"kind": "usertry", "t": t, "when": "free", "host": "user"},
+                        {"kind": "delay", "label": "try-submit-jobs", "b": -1, "j": j, "d": 40}]
+                tasks.append(("fault", (scn, seed, plan, True)))
+    ctx.extra["fine_user_round_points_enumerated"] = len(tasks)
+    if cap and len(tasks) > cap:
+        tasks = random.Random(ctx.seed + 6).sample(tasks, cap)
+    return baselines, tasks
+
+
 def delay_bases():
     return [
         families.scn("ABC", groups=[families.G(size=1, procs=1)], maxnodes=0),
@@ -742,6 +797,10 @@ def protocol_suite(ctx, n_quick=400, n_thorough=4000, gen_kw=None, salt=0):
     ctx.backward_conformance(160 if q else 2500, salt=salt)
     bl, dt = delay_sweep_tasks(ctx, delay_bases(), cap=450 if q else None)
     ctx.judge(bl + run_tasks(dt), "single-delay sweep of base schedules (each process held at each of its operations)")
+    bl, ut = user_round_sweep_tasks(ctx, cap=500 if q else None)
+    ctx.judge(bl + run_tasks(ut), "login-node rounds started while batches are active and held at each of their operations")
+    bl, ft = fine_user_round_sweep_tasks(ctx, cap=300 if q else None)
+    ctx.judge(bl + run_tasks(ft), "the same with every file operation as a scheduling point")
 
 
 def check_C01(ctx):
@@ -933,6 +992,8 @@ def check_C08(ctx):
             behs = rng.sample(behs, 150 if q else 1500)
         tasks += [("results", (plan, 0, b["path"])) for b in behs]
         tasks += [("results", (plan, s, None)) for s in seeds(ctx, 100 if q else 1500, hash(plan["id"]) % 97)]
+        # ... and with every file operation (also those on the lock files) as a scheduling point
+        tasks += [("results", (plan, s, None, True)) for s in seeds(ctx, 150 if q else 2500, hash(plan["id"]) % 89)]
     traces = run_tasks(tasks)
     note_conformance(ctx, traces)
     ctx.judge(traces, "real ResultsAggregator under model schedules and random schedules (lock-operation granularity)",
@@ -940,10 +1001,13 @@ def check_C08(ctx):
     # the aggregator inside whole submissions
     kw = dict(n_min=3, n_max=7, groups_max=1)
     ctx.judge(run_tasks([("random_hpc", (s, kw)) for s in seeds(ctx, 150 if q else 2000, 5)]), "random HPC submissions")
+    bl, ft = fine_user_round_sweep_tasks(ctx, cap=300 if q else None)
+    ctx.judge(bl + run_tasks(ft), "login-node rounds held at each file operation while nodes append")
     return ctx.finish(rule="Results.tla: all interleavings of 2-3 appenders with 2 collectors (1-3 rounds, canceled rows) and a "
                            "reader at lock-operation granularity; the model's complete behaviours and random schedules executed "
-                           "on the real ResultsAggregator in virtual processes parked at every lock operation; plus rows/collected "
-                           "events of whole submissions")
+                           "on the real ResultsAggregator in virtual processes parked at every lock operation, and random schedules "
+                           "with every file operation (result files and lock files) as a scheduling point; plus rows/collected "
+                           "events of whole submissions, incl. login-node rounds held at each of their file operations")
 
 
 FIXED = {"F1", "F9", "F2"}      # findings repaired in the current tree (the models follow the code)
@@ -1415,6 +1479,9 @@ def liveness_extra(ctx):
     q = ctx.tier == "quick"
     ctx.impl_liveness("JadeImpl liveness", families.protocol_quick() if q else families.protocol_thorough(),
                       maxb=3 if q else 4, maxuser=4 if q else 5)
+    # the user runs try-submit-jobs at any moment, concurrently with the nodes' own rounds (not only at quiescence)
+    ctx.impl_model("JadeImpl + user rounds at any moment", [families.scn("AB", groups=[families.G(size=1, procs=1)], maxnodes=0)],
+                   maxb=2, maxuser=1 if q else 2, eager=True, max_replay=150 if q else 1500, timeout=3000)
 
 
 NODE_CLAUSES = {"C02": {"StartAfterBlockers"}, "C04": {"CanceledNeverRuns", "CanceledOnlyIf", "CanceledIff", "NotCanceledRuns"},
@@ -1440,6 +1507,9 @@ def node_queue_suite(ctx):
     with ThreadPoolExecutor(max_workers=len(models)) as ex:      # TLC explores while the real queue is being driven
         futs = [ex.submit(ctx.model, n, "NodeQueue", c, 4, None, 3000) for n, c in models]
         lists = run_obs([("explore_nodequeue", (i,)) for i in inputs])
+        # larger, cancellation-heavy batches (5-9 jobs: chains and fans of flagged dependents below failing jobs) under
+        # random exit schedules
+        lists += run_obs([("random_nodequeue", (s, 6)) for s in seeds(ctx, 400 if q else 6000, 33)])
         for f in futs:
             f.result()
     obs, tasks = [], []
